@@ -11,7 +11,7 @@ def components():
 
 
 def oracles_():
-    return [Y.ModHashSens(), Y.ModHashConcat(), Y.ChangeCount(), Y.YlOracle()]
+    return [Y.ModHashSens(), Y.ModHashConcat(), Y.ChangeCount(), Y.YlOracle(), Y.YlxOracle()]
 
 
 TRUSTED = [
@@ -34,7 +34,11 @@ MANIFEST = {
             "counter differs after 1..65535 events and wraps after 65536; YangLib.v: describe/rebuild with the round-trip "
             "theorem under imports_pinned. Tie: extracted model vs ly_ctx_get_modules_hash on generated contexts (records "
             "read back from the context), yang-library entries and rebuilt contexts vs describe/rebuild; oracles on the API "
-            "for hash sensitivity, change counter (also under LY_CTX_EXPLICIT_COMPILE, fixed in d4e18d7) and round trip.",
+            "for hash sensitivity, change counter (also under LY_CTX_EXPLICIT_COMPILE, fixed in d4e18d7) and round trip; the "
+            "round trip also runs into populated contexts (T2 with YangLib.preload; the theorem's c0 may hold implemented modules in "
+            "any feature state; the features argument NULL / * / array is modelled) and, as oracle yl-variants, with every option "
+            "of the rebuilding context, callback / search directory sources, yldata / ylmem / ylpath in JSON and XML, *ctx NULL or "
+            "existing, augment / deviation / import dependencies and if-feature dependent features.",
     "note": "Not modelled: compilation, deviations, submodule entries, datastore list, search directories, "
             "LY_CTX_ALL_IMPLEMENTED/REF_IMPLEMENTED, the revision-less import logic beyond the unambiguous case, the exact "
             "number of counter events per operation. Known findings: yl-hash-concat, yl-import-only-rev; fixed: yl-hash-fi "
